@@ -1,8 +1,14 @@
 #!/bin/bash
-# Builds the framework from files on disk (offline) and warms the build cache.
+# Builds the framework from files on disk (offline), binds the in-memory network
+# to the kernel (checks/shimconf) and warms the build cache.
 cd "$(dirname "$0")" || exit 2
 . ./lib.sh
 build_instr
-(cd "$VERIF_ROOT" && go build ./vm/... ./e1 ./common) || exit 2
+(cd "$VERIF_ROOT" && go build ./vm/... ./e1 ./common ./ref ./gen ./tnet) || exit 2
+(cd "$VERIF_ROOT" && go test ./vm ./ref ./gen > "$WORK/setup-unit-tests.log" 2>&1) || { cat "$WORK/setup-unit-tests.log"; exit 2; }
 (cd "$REPO" && go build ./tars/... ) || exit 2
+(cd "$REPO/tars/tools/tars2go" && go build -o "$WORK/bin/tars2go.setup" .) || exit 2
+(cd "$VERIF_ROOT" && go build -o "$WORK/bin/shimconf" ./checks/shimconf) || exit 2
+"$WORK/bin/shimconf" > "$WORK/shimconf.log" 2>&1 || { cat "$WORK/shimconf.log"; echo "setup: vnet does not agree with the kernel"; exit 2; }
+tail -1 "$WORK/shimconf.log"
 echo "setup ok"
